@@ -29,6 +29,11 @@ CHECKS = {
             "unordered iteration never reaches a result, and exported coordinates are never read back.",
             "Trusted: clang 14 front end; std call classification tables. Not decided: bitwise floating-point reproducibility across machines.",
             "DESIGN.md 2/C08"),
+    "C17": ("qualifier typing: floating-point weight path + homogeneity-degree type system over the matrix builders, guard dominance for the regulariser, argument provenance",
+            "The scaling clause is decided by typing for every net list: every matrix coefficient and right-hand-side increment is homogeneous of degree 1 in (weights, penalties), "
+            "the only degree-0 term is confined to rows no weighted term mentions, weights are stored and forwarded as floats without truncation or defaulting.",
+            "Trusted: clang 14 front end; degree seeds (netWeight()/penaltyStrength/weight parameters). Not decided: least-squares optimality (solver numerics).",
+            "DESIGN.md 2/C17"),
 }
 
 NOT_APPLICABLE = {
